@@ -7,7 +7,8 @@
 (*                                                                         *)
 (* Granularity: one action per step a thread takes between two scheduling  *)
 (* points of the deterministic scheduler used on the real code (lock       *)
-(* acquisition, condition wait / wake-up incl. predicate re-check, every   *)
+(* acquisition AND release, condition wait / wake-up incl. predicate       *)
+(* re-check, every                                                         *)
 (* WV_POINT: ge chk bu ti ld0 ld1 ex0 ex1 and the first statement of each  *)
 (* critical section wr wu sr su, thread exit, join).  The program points   *)
 (* below carry the names of those points.                                  *)
@@ -97,7 +98,7 @@ WLock(i) == /\ pcw[i] \in {"g0", "su0", "wr0"} /\ Acquire(i, i)
 \* cv.wait - which is entered with the mutex still held (program points gp / wrp)
 WWaitTest(i) == /\ pcw[i] \in {"g1", "wr1"} /\ mtx[i] = i
                 /\ IF ReadyPred(i)
-                   THEN /\ pcw' = [pcw EXCEPT ![i] = IF pcw[i] = "g1" THEN "ge" ELSE "chk"]
+                   THEN /\ pcw' = [pcw EXCEPT ![i] = IF pcw[i] = "g1" THEN "g2" ELSE "wr2"]
                         /\ mtx' = [mtx EXCEPT ![i] = NoOne]
                    ELSE /\ pcw' = [pcw EXCEPT ![i] = IF pcw[i] = "g1" THEN "gp" ELSE "wrp"]
                         /\ mtx' = mtx
@@ -116,7 +117,7 @@ WEnqueue(i) == /\ pcw[i] \in {"gp", "wrp"} /\ mtx[i] = i
 WWake(i) == /\ pcw[i] \in {"gw", "wrw"} /\ (i \notin cvR[i] \/ Spurious) /\ mtx[i] = NoOne
             /\ cvR' = [cvR EXCEPT ![i] = @ \ {i}]
             /\ IF ReadyPred(i) \/ ~WaitLoop
-               THEN /\ pcw' = [pcw EXCEPT ![i] = IF pcw[i] = "gw" THEN "ge" ELSE "chk"] /\ mtx' = mtx
+               THEN /\ pcw' = [pcw EXCEPT ![i] = IF pcw[i] = "gw" THEN "g2" ELSE "wr2"] /\ mtx' = mtx
                ELSE /\ pcw' = [pcw EXCEPT ![i] = IF pcw[i] = "gw" THEN "gp" ELSE "wrp"]
                     /\ mtx' = [mtx EXCEPT ![i] = i]
             /\ UNCHANGED << st, cvU, buf, turn, over, live, nload, lstate, out, outlen, hist, pcio, cur, born, nj >>
@@ -144,8 +145,13 @@ WSetUpdate(i) == /\ pcw[i] = "su1" /\ mtx[i] = i
                          /\ cvU' = IF NotifyUpdate THEN [cvU EXCEPT ![i] = {}] ELSE cvU
                     ELSE UNCHANGED << st, cvU >>
                  /\ mtx' = [mtx EXCEPT ![i] = NoOne]
-                 /\ pcw' = [pcw EXCEPT ![i] = "wr0"]
+                 /\ pcw' = [pcw EXCEPT ![i] = "su2"]
                  /\ UNCHANGED << cvR, buf, turn, over, live, nload, lstate, out, outlen, hist, pcio, cur, born, nj >>
+
+\* the step after a mutex release (releasing is a scheduling point: what follows is unsynchronised)
+WAfterUnlock(i) == /\ pcw[i] \in {"g2", "su2", "wr2"}
+                   /\ pcw' = [pcw EXCEPT ![i] = CASE pcw[i] = "g2" -> "ge" [] pcw[i] = "su2" -> "wr0" [] pcw[i] = "wr2" -> "chk"]
+                   /\ UNCHANGED << st, mtx, cvR, cvU, buf, turn, over, live, nload, lstate, out, outlen, hist, pcio, cur, born, nj >>
 
 \* after wait_ready: unsynchronised cmpstate(READY), then get_entry in the same step
 WCheck(i) == /\ pcw[i] = "chk"
@@ -156,7 +162,7 @@ WCheck(i) == /\ pcw[i] = "chk"
                 ELSE /\ pcw' = [pcw EXCEPT ![i] = "done"] /\ UNCHANGED << buf, cur, born, nj >>
              /\ UNCHANGED << st, mtx, cvR, cvU, turn, over, live, nload, lstate, out, outlen, hist, pcio, born, nj >>
 
-Worker(i) == WStart(i) \/ WLock(i) \/ WWaitTest(i) \/ WEnqueue(i) \/ WWake(i) \/ WGetEntry(i) \/ WCry(i) \/ WSetUpdate(i) \/ WCheck(i)
+Worker(i) == WStart(i) \/ WLock(i) \/ WWaitTest(i) \/ WEnqueue(i) \/ WWake(i) \/ WGetEntry(i) \/ WCry(i) \/ WSetUpdate(i) \/ WAfterUnlock(i) \/ WCheck(i)
 
 \* ---- I/O thread ------------------------------------------------------------------
 \* run_multicry: create the T worker threads one after the other
@@ -169,7 +175,7 @@ IOLock == /\ pcio \in {"wu0", "sr0"} /\ Acquire(turn, IO)
           /\ pcio' = IF pcio = "wu0" THEN "wu1" ELSE "sr1"
           /\ UNCHANGED << st, cvR, cvU, buf, turn, over, live, nload, lstate, out, outlen, hist, pcw, cur, born, nj >>
 IOWaitTest == /\ pcio = "wu1" /\ mtx[turn] = IO
-              /\ IF UpdPred THEN pcio' = "bu" /\ mtx' = [mtx EXCEPT ![turn] = NoOne]
+              /\ IF UpdPred THEN pcio' = "wu2" /\ mtx' = [mtx EXCEPT ![turn] = NoOne]
                  ELSE pcio' = "wup" /\ mtx' = mtx
               /\ UNCHANGED << st, cvR, cvU, buf, turn, over, live, nload, lstate, out, outlen, hist, pcw, cur, born, nj >>
 IOEnqueue == /\ pcio = "wup" /\ mtx[turn] = IO
@@ -179,7 +185,7 @@ IOEnqueue == /\ pcio = "wup" /\ mtx[turn] = IO
              /\ UNCHANGED << st, cvR, buf, turn, over, live, nload, lstate, out, outlen, hist, pcw, cur, born, nj >>
 IOWake == /\ pcio = "wuw" /\ (IO \notin cvU[turn] \/ Spurious) /\ mtx[turn] = NoOne
           /\ cvU' = [cvU EXCEPT ![turn] = @ \ {IO}]
-          /\ IF UpdPred THEN pcio' = "bu" /\ mtx' = mtx
+          /\ IF UpdPred THEN pcio' = "wu2" /\ mtx' = mtx
              ELSE pcio' = "wup" /\ mtx' = [mtx EXCEPT ![turn] = IO]
           /\ UNCHANGED << st, cvR, buf, turn, over, live, nload, lstate, out, outlen, hist, pcw, cur, born, nj >>
 \* buffer_update: unsynchronised cmpstate(UPDATING) -> export; else load (unless over); else set_ready
@@ -225,8 +231,11 @@ IOSetReady == /\ pcio = "sr1" /\ mtx[turn] = IO
                  ELSE st' = [st EXCEPT ![turn] = "INV"] /\ live' = live - 1
               /\ cvR' = IF NotifyReady THEN [cvR EXCEPT ![turn] = {}] ELSE cvR
               /\ mtx' = [mtx EXCEPT ![turn] = NoOne]
-              /\ pcio' = "ti"
+              /\ pcio' = "sr2"
               /\ UNCHANGED << cvU, buf, turn, over, nload, lstate, out, outlen, hist, pcw, cur, born, nj >>
+IOAfterUnlock == /\ pcio \in {"wu2", "sr2"}
+                 /\ pcio' = IF pcio = "wu2" THEN "bu" ELSE "ti"
+                 /\ UNCHANGED << st, mtx, cvR, cvU, buf, turn, over, live, nload, lstate, out, outlen, hist, pcw, cur, born, nj >>
 \* turn_iter: unsynchronised reads of live_num and of the states
 RECURSIVE NextTurn(_, _)
 NextTurn(t, fuel) == LET n == (t + 1) % T IN IF st[n] # "INV" \/ fuel = 0 THEN n ELSE NextTurn(n, fuel - 1)
@@ -241,7 +250,7 @@ IOJoin == /\ pcio = "join" /\ pcw[nj] = "done"
           /\ UNCHANGED << st, mtx, cvR, cvU, buf, turn, over, live, nload, lstate, out, outlen, hist, pcw, cur, born >>
 IOThread == IOSpawn \/ IOLock \/ IOWaitTest \/ IOEnqueue \/ IOWake \/ IOBegin \/ IOExport \/ IOExportEnd \/ IOLoad \/ IOLoadEnd
             \/ (\E kind \in {"FULL", "FINAL"}, nb \in 1..MaxBlocks : IOLoadAbs(kind, nb))
-            \/ IOSetReady \/ IOTurn \/ IOJoin
+            \/ IOSetReady \/ IOAfterUnlock \/ IOTurn \/ IOJoin
 
 Done == pcio = "done" /\ \A i \in Bufs : pcw[i] = "done"
 Terminated == Done /\ UNCHANGED vars
